@@ -89,4 +89,30 @@ def sidesAfterClose (onlyPrimary : Bool) (sides : List Nat) (c : Nat) : List Nat
 def deliveries (ds : List (Nat × Msg)) (t : Nat) : Nat :=
   (ds.filter (fun d => d.1 = t)).length
 
+/-! ### the set-up of one forwarder: its publisher and its subscriber are created one after the other; the
+subscriber's listener may hand the closure a message as soon as the subscription is live -/
+
+inductive SetupEv where
+  | mkPub | mkSub | arrives
+deriving DecidableEq, Repr
+
+def setupOrder (publisherFirst : Bool) : List SetupEv := if publisherFirst then [.mkPub, .mkSub] else [.mkSub, .mkPub]
+
+/-- a message arrives after `i` steps of the set-up -/
+def withArrivalAt (l : List SetupEv) (i : Nat) : List SetupEv := l.take i ++ [.arrives] ++ l.drop i
+
+structure SetupSt where
+  pub : Bool := false
+  sub : Bool := false
+  received : Bool := false     -- the closure was called with the message
+  forwarded : Bool := false    -- ... and could publish it
+deriving DecidableEq, Repr
+
+def setupStep (s : SetupSt) : SetupEv → SetupSt
+  | .mkPub   => { s with pub := true }
+  | .mkSub   => { s with sub := true }
+  | .arrives => if s.sub then { s with received := true, forwarded := s.pub } else s
+
+def setupRun (evs : List SetupEv) : SetupSt := evs.foldl setupStep {}
+
 end RPVerif.Bridge
